@@ -1,5 +1,5 @@
 Require Extraction.
 Require Import ExtrOcamlBasic.
 From Coq Require Import QArith.
-From QV Require Import Decoders.Matching Decoders.MatchingHist.
-Extraction "c13.ml" build add_edge edge nodes all_pms weight is_perfect is_min_pm min_pm_weight negate Qle_bool Qred step get.
+From QV Require Import Decoders.Matching Decoders.MatchingHist Decoders.MatchingMin Decoders.MatchingMemo.
+Extraction "c13.ml" build add_edge edge nodes all_pms weight is_perfect is_min_pm min_pm_weight negate Qle_bool Qred step get is_min_pm_fast min_pm_weight_fast npms_fast is_min_pm_memo min_pm_weight_memo npms_memo is_min_pm_big scaleq den_scale Qmult Qinv Qopp.
